@@ -32,7 +32,7 @@ pub fn cfg() -> Cfg {
     cfg.max_chain = 3;
     cfg.max_n = 3;
     cfg.max_history = 0;
-    cfg.verify_modes = vec![VerifyMode::Drop, VerifyMode::Verify, VerifyMode::Report, VerifyMode::ExplicitVerify];
+    cfg.verify_modes = vec![VerifyMode::Drop, VerifyMode::Verify, VerifyMode::Report, VerifyMode::ExplicitVerify, VerifyMode::ExplicitReport];
     cfg
 }
 
@@ -169,6 +169,7 @@ pub fn check(scn: &Scenario) -> Result<CaseInfo, String> {
                 .class_if(scn.verify == VerifyMode::Verify, "via-verify")
                 .class_if(scn.verify == VerifyMode::Drop, "via-drop")
                 .class_if(scn.verify == VerifyMode::ExplicitVerify, "via-no_verify_in_drop+verify")
+                .class_if(scn.verify == VerifyMode::ExplicitReport, "via-no_verify_in_drop+report")
                 .class_if(discarded, "history-has-mock-panic(not C03)"))
         }
     }
@@ -205,7 +206,7 @@ pub fn grid() -> Vec<GridCell> {
                     if entry == "next" && count > eff {
                         continue; // would be an order violation (a mock panic), not C03
                     }
-                    for verify in [VerifyMode::Drop, VerifyMode::Verify, VerifyMode::Report, VerifyMode::ExplicitVerify] {
+                    for verify in [VerifyMode::Drop, VerifyMode::Verify, VerifyMode::Report, VerifyMode::ExplicitVerify, VerifyMode::ExplicitReport] {
                         for partial in [false, true] {
                             cells.push(GridCell {
                                 entry,
@@ -314,7 +315,7 @@ pub fn grid_scenario(cell: &GridCell) -> Scenario {
     }
 }
 
-pub const RULE: &str = "steered = generated clause sets (unordered and ordered, chains of 1-3 segments) with a synthesised panic-free history in which every pattern is matched a target number of times drawn from {bound-1, bound, bound+1, 0, random}, ordered sequences cut at {end, end-1, 0, random}; verification through drop, verify() and report(); non-trivial = >= 2 patterns and >= 1 pattern with count in {bound-1, bound, bound+1}; distinct = distinct scenario. grid = exhaustive enumeration of entry form x quantifier kind x bound 0..3 x count {b-1,b,b+1,0} x verification route x strict/partial on a one-pattern mock next to an always-satisfied second method. racing-* = every schedule of 2-3 threads x 1-2 calls (sampled up to 4x3) on one pattern quantified n_times(N) / n_times(N+1) for N calls through clones or a shared &Unimock: verification after join must be silent / name exactly that pattern (C10's scheduler)";
+pub const RULE: &str = "steered = generated clause sets (unordered and ordered, chains of 1-3 segments) with a synthesised panic-free history in which every pattern is matched a target number of times drawn from {bound-1, bound, bound+1, 0, random}, ordered sequences cut at {end, end-1, 0, random}; verification through drop, verify(), report(), no_verify_in_drop()+verify() and no_verify_in_drop()+report(); non-trivial = >= 2 patterns and >= 1 pattern with count in {bound-1, bound, bound+1}; distinct = distinct scenario. grid = exhaustive enumeration of entry form x quantifier kind x bound 0..3 x count {b-1,b,b+1,0} x verification route x strict/partial on a one-pattern mock next to an always-satisfied second method. racing-* = every schedule of 2-3 threads x 1-2 calls (sampled up to 4x3) on one pattern quantified n_times(N) / n_times(N+1) for N calls through clones or a shared &Unimock: verification after join must be silent / name exactly that pattern (C10's scheduler)";
 
 pub fn run(ctx: &Ctx) -> Verdict {
     let mut v = Verdict::new("exploration", RULE);
